@@ -30,12 +30,12 @@
 (*   Strip(t)      remove ParenExpr                                        *)
 (*   Spans(t)      preorder list of [k, f, l] first/last token per node    *)
 (*   Preorder(t), WalkEvents(t)   traversal order (with "nil" markers)     *)
-(*   L1..L6, Universe(f)          trees by size per focus (FC, Sizes)      *)
+(*   L1..L7, Universe(f)          trees by size per focus (FC, Sizes)      *)
 (***************************************************************************)
 EXTENDS Integers, Sequences, FiniteSets, TLC, VerifIO
 
 CONSTANTS Foci,      \* set of focus names (DOMAIN FC, or "samples"): which construct families are enumerated
-          Sizes      \* [focus -> 1..6]: trees of at most Sizes[f] expression nodes
+          Sizes      \* [focus -> 1..7]: trees of at most Sizes[f] expression nodes
 
 N(k, a, c) == [k |-> k, a |-> a, c |-> c]
 Nil        == N("Nil", "", <<>>)
@@ -187,12 +187,16 @@ Shape(t) ==
     [] t.k = "ExprStmt"      -> <<C(1)>>
     [] t.k = "AssignStmt"    -> <<C(1), B(t.a), CB(2)>>
     [] t.k = "IncDecStmt"    -> <<C(1), T(t.a)>>
-    [] t.k = "SendStmt"      -> <<C(1), B("<-"), CB(2)>> \o Cat([m \in 1..(n - 2) |-> <<T(","), CB(2 + m)>>]) \o Opt(t.a = "...", <<T("...")>>)
+    \* `c <-1` would be the command call c(<-1): the gap after "<-" follows the gap before it
+    [] t.k = "SendStmt"      -> <<C(1), B("<-"), CS(2)>> \o Cat([m \in 1..(n - 2) |-> <<T(","), CB(2 + m)>>]) \o Opt(t.a = "...", <<T("...")>>)
     [] t.k = "GoStmt"        -> <<T("go"), CB(1)>>
     [] t.k = "DeferStmt"     -> <<T("defer"), CB(1)>>
     [] t.k = "ReturnStmt"    -> <<T("return")>> \o Opt(n >= 1, <<CB(1)>> \o Cat([m \in 1..(n - 1) |-> <<T(","), CB(1 + m)>>]))
     [] t.k = "BranchStmt"    -> <<T(t.a)>> \o Opt(Has(t, 1), <<CB(1)>>)
     [] t.k = "BlockStmt"     -> IF t.a = "bare" THEN Semis(1, n)
+                                 ELSE IF n > 0 /\ t.c[1].k \in {"CaseClause", "CommClause"}
+                                 THEN \* clauses: no ";" between them (it would be an empty statement), one after a non-empty body
+                                      <<T("{")>> \o Cat([m \in 1..n |-> <<CB(m)>> \o Opt(Has(t.c[m], 2), <<SEMI>>)]) \o <<T("}")>>
                                  ELSE <<T("{")>> \o Semis(1, n) \o Opt(n > 0, <<SEMI>>) \o <<T("}")>>   \* "}" on its own line
     [] t.k = "IfStmt"        -> <<T("if")>> \o Opt(Has(t, 1), <<CB(1), T(";")>>) \o <<CB(2), CB(3)>> \o Opt(Has(t, 4), <<B("else"), CB(4)>>)
     [] t.k = "CaseClause"    -> (IF t.a = "default" THEN <<T("default")>> ELSE <<T("case"), CB(1)>>) \o <<T(":")>>
@@ -643,7 +647,7 @@ ParseTop(ts, ctx) ==
 -----------------------------------------------------------------------------
 (* UNIVERSE.  Trees are built from the constructors of a focus (FC below)    *)
 (* by size: E_n = trees with n expression nodes (identifier-only children    *)
-(* such as Sel, lambda parameters, loop variables do not count).  E1..E6 are *)
+(* such as Sel, lambda parameters, loop variables do not count).  L1..L7 are *)
 (* constant definitions, so TLC computes each once.                          *)
 TId == Id("T")
 AtomOf(c) == CASE c = "a" -> Id("a") [] c = "b" -> Id("b") [] c = "f" -> Id("f")
@@ -726,6 +730,7 @@ Mk(c, k) ==
 \* FOCI: construct families (constructor names of Mk / AtomOf) and how their text is parsed
 \* ("expr": parser.ParseExpr; "stmt": a statement of a file, where command calls are legal)
 FC == [ prec    |-> {"a", "b", "b||", "b&&", "b==", "b->", "b+", "b*", "u-", "u!", "u&", "u<-", "u^", "u+", "star", "ew!", "ew?"},
+        binary  |-> {"a", "b||", "b&&", "b==", "b->", "b+", "b*"},        \* nested binary operators of every level pair
         ops     |-> {"a", "b", "star"} \cup DOMAIN BinCtor \cup DOMAIN UnCtor,
         postfix |-> {"a", "1", "b+", "b*", "u-", "star", "ew!", "ew?", "ewd?", "ewd!", "sel", "call0", "call1", "call2", "call1e",
                      "idx", "slAll", "slLo", "slHi", "slLH", "sl3", "slLH3", "tas", "tasT"},
@@ -739,11 +744,11 @@ FC == [ prec    |-> {"a", "b", "b||", "b&&", "b==", "b->", "b+", "b*", "u-", "u!
 FCtx(f) == IF f = "cmd" THEN "stmt" ELSE IF f = "samples" THEN "file" ELSE "expr"
 GenFoci == Foci \ {"samples"}
 AllFoci       == DOMAIN FC \cup {"samples"}   \* "samples": the fixed all-kinds sample trees (rendered and traversed only)
-DevFoci       == {"slidx"}
+DevFoci       == AllFoci
 SampleFoci    == {"samples"}
-QuickSizes    == [prec |-> 4, ops |-> 3, postfix |-> 3, lambda |-> 4, lit |-> 3, atoms |-> 3, slidx |-> 4, cmd |-> 3]
-ThoroughSizes == [prec |-> 5, ops |-> 4, postfix |-> 4, lambda |-> 5, lit |-> 4, atoms |-> 3, slidx |-> 5, cmd |-> 4]
-SmallSizes    == [prec |-> 3, ops |-> 3, postfix |-> 3, lambda |-> 3, lit |-> 3, atoms |-> 2, slidx |-> 3, cmd |-> 3]
+QuickSizes    == [binary |-> 5, prec |-> 4, ops |-> 3, postfix |-> 3, lambda |-> 4, lit |-> 3, atoms |-> 3, slidx |-> 4, cmd |-> 3]
+ThoroughSizes == [binary |-> 7, prec |-> 5, ops |-> 4, postfix |-> 4, lambda |-> 5, lit |-> 4, atoms |-> 3, slidx |-> 5, cmd |-> 4]
+SmallSizes    == [binary |-> 5, prec |-> 3, ops |-> 3, postfix |-> 3, lambda |-> 3, lit |-> 3, atoms |-> 2, slidx |-> 3, cmd |-> 3]
 
 Gen(n, ctors, prev) ==
      (IF n = 1 THEN {AtomOf(c) : c \in ctors \cap Atoms} ELSE {})
@@ -760,8 +765,9 @@ L3 == [f \in GenFoci |-> IF Sizes[f] >= 3 THEN Gen(3, FC[f], <<L1[f], L2[f]>>) E
 L4 == [f \in GenFoci |-> IF Sizes[f] >= 4 THEN Gen(4, FC[f], <<L1[f], L2[f], L3[f]>>) ELSE {}]
 L5 == [f \in GenFoci |-> IF Sizes[f] >= 5 THEN Gen(5, FC[f], <<L1[f], L2[f], L3[f], L4[f]>>) ELSE {}]
 L6 == [f \in GenFoci |-> IF Sizes[f] >= 6 THEN Gen(6, FC[f], <<L1[f], L2[f], L3[f], L4[f], L5[f]>>) ELSE {}]
-ES(f) == <<L1[f], L2[f], L3[f], L4[f], L5[f], L6[f]>>
-UpTo(f) == L1[f] \cup L2[f] \cup L3[f] \cup L4[f] \cup L5[f] \cup L6[f]
+L7 == [f \in GenFoci |-> IF Sizes[f] >= 7 THEN Gen(7, FC[f], <<L1[f], L2[f], L3[f], L4[f], L5[f], L6[f]>>) ELSE {}]
+ES(f) == <<L1[f], L2[f], L3[f], L4[f], L5[f], L6[f], L7[f]>>
+UpTo(f) == L1[f] \cup L2[f] \cup L3[f] \cup L4[f] \cup L5[f] \cup L6[f] \cup L7[f]
 \* a command callee is an identifier / selector / errwrap expression whose text starts with an identifier
 \* (parseStmt keeps allowCmd only for statements starting with IDENT or `map`)
 CmdCallee(e) == CmdFun(e) /\ Flat(e)[1].s \in IdentNames
